@@ -7,7 +7,13 @@ package codec
 // bytes DecodeValue agrees with an independent reference decoder of the tagged grammar (accept
 // iff the reference accepts, same value, same number of bytes consumed), never panics, also for
 // deep ListType nesting and huge size fields; (4) DeserializeCallParam / DeserializeNotify wrap
-// the same decoder behind their prefixes (reference stringification for notifications).
+// the same decoder behind their prefixes (reference stringification for notifications);
+// (5) held results: every encoder-side buffer the check obtains (EncodeValue, the Encode* family
+// writing into a caller's sink behind no / call-param / notify prefix, BuildResultFromNeo) is held
+// while 1-6 further encodes (and optionally joined concurrent encodes) run and must afterwards be
+// byte-identical to the copy taken at return time, decode to its value, and be independent of the
+// argument it was made from; decoded values are held across further decodes and must not change
+// (except zero-copy []byte leaves) when the input buffer is overwritten afterwards.
 
 import (
 	"bytes"
@@ -15,10 +21,12 @@ import (
 	"fmt"
 	"math/big"
 	"strings"
+	"sync"
 	"testing"
 
 	"github.com/ontio/ontology/common"
 	cv "github.com/ontio/ontology/vm/crossvm_codec"
+	nt "github.com/ontio/ontology/vm/neovm/types"
 	"pgregory.net/rapid"
 
 	"verifharness/internal/harn"
@@ -427,7 +435,7 @@ func c25Judge(b []byte) (msg string, accepted bool) {
 	return "", ok
 }
 
-const c25Rule = "value trees (depth <= 6) of byte arrays, strings (incl. non-UTF-8/empty), addresses, booleans, integers at int64/I128 edges in every accepted Go integer type, hashes and lists; integers just outside the I128 range; encodings mutated by byte edits, truncation, irregular booleans, size-field tampering; grammar-shaped random bytes; list nesting up to 200000 levels and 2^32-1 sizes; non-trivial = list depth >= 2, an I128/int64 edge integer, an out-of-range integer, or a mutated/arbitrary input; distinct = different value or bytes"
+const c25Rule = "value trees (depth <= 6) of byte arrays, strings (incl. non-UTF-8/empty), addresses, booleans, integers at int64/I128 edges in every accepted Go integer type, hashes and lists; integers just outside the I128 range; encodings mutated by byte edits, truncation, irregular booleans, size-field tampering; grammar-shaped random bytes; list nesting up to 200000 levels and 2^32-1 sizes; non-trivial = list depth >= 2, an I128/int64 edge integer, an out-of-range integer, or a mutated/arbitrary input; distinct = different value or bytes || held results: sequences of 2-7 generated values (incl. leaves above the 512-byte initial sink capacity) encoded one after the other through EncodeValue, the Encode* functions writing into a caller's sink (bare, behind the call-param version byte or the evt\\0 notify prefix; EncodeBigInt or EncodeInt128 for integers) and neovm BuildResultFromNeo, interleaved with failing encodes (out-of-range integer, unsupported nested type) and decodes, optionally followed by 2-4 joined goroutines encoding 1-3 values each; every returned buffer is held until the end of the case and must then equal the private copy taken at return time and the reference encoding, decode (DecodeValue / DeserializeCallParam / DeserializeNotify) to its value, and stay unchanged when the []byte arguments it was made from are overwritten; decoded values and notifications are held while the other buffers are decoded and while the decoder input is overwritten (only zero-copy []byte leaves may follow the input); non-trivial there = at least two held buffers with different bytes; distinct = different value/route sequence"
 
 func TestC25_RoundTrip(t *testing.T) {
 	ev := harn.For("C25").Rule(c25Rule)
@@ -622,6 +630,434 @@ func TestC25_DeepNesting(t *testing.T) {
 			ev.Case(true, fmt.Sprintf("deep depth=%d tail=%s", d, tail))
 		}
 	}
+}
+
+// ---------------------------------------------------------------------------------------------
+// held results (oracle 5)
+
+// c25Uniform draws an (almost) uniform value in [0,n), n <= 16, from boolean bits.
+func c25Uniform(t *rapid.T, n int, label string) int {
+	x := 0
+	for i := 0; i < 6; i++ {
+		x <<= 1
+		if rapid.Bool().Draw(t, label) {
+			x |= 1
+		}
+	}
+	return x % n
+}
+
+func c25Clone(v *c25Val) *c25Val {
+	c := &c25Val{kind: v.kind, t: v.t}
+	if v.b != nil {
+		c.b = append([]byte{}, v.b...)
+	}
+	if v.i != nil {
+		c.i = new(big.Int).Set(v.i)
+	}
+	if v.kind == c25List {
+		c.list = []*c25Val{}
+		for _, e := range v.list {
+			c.list = append(c.list, c25Clone(e))
+		}
+	}
+	return c
+}
+
+// c25Scribble overwrites every byte-array leaf of v in place (the slices are the ones that were handed
+// to the encoder as []byte arguments).
+func c25Scribble(v *c25Val) {
+	if v.kind == c25List {
+		for _, e := range v.list {
+			c25Scribble(e)
+		}
+		return
+	}
+	for i := range v.b {
+		v.b[i] ^= 0xFF
+	}
+}
+
+// c25EqualMasked: structural equality where byte-array leaves (returned zero-copy by the decoder)
+// are compared by length only.
+func c25EqualMasked(a, b *c25Val) bool {
+	if a.kind != b.kind {
+		return false
+	}
+	switch a.kind {
+	case c25Bytes:
+		return len(a.b) == len(b.b)
+	case c25List:
+		if len(a.list) != len(b.list) {
+			return false
+		}
+		for i := range a.list {
+			if !c25EqualMasked(a.list[i], b.list[i]) {
+				return false
+			}
+		}
+		return true
+	}
+	return c25Equal(a, b)
+}
+
+func c25NeoRepresentable(v *c25Val) bool {
+	switch v.kind {
+	case c25Bytes, c25Int, c25Bool:
+		return true
+	case c25List:
+		for _, e := range v.list {
+			if !c25NeoRepresentable(e) {
+				return false
+			}
+		}
+		return true
+	}
+	return false
+}
+
+func c25ToNeo(v *c25Val) (nt.VmValue, error) {
+	switch v.kind {
+	case c25Bytes:
+		return nt.VmValueFromBytes(v.b)
+	case c25Int:
+		return nt.VmValueFromBigInt(new(big.Int).Set(v.i))
+	case c25Bool:
+		return nt.VmValueFromBool(v.t), nil
+	}
+	arr := nt.NewArrayValue()
+	for _, e := range v.list {
+		x, err := c25ToNeo(e)
+		if err != nil {
+			return nt.VmValue{}, err
+		}
+		if err := arr.Append(x); err != nil {
+			return nt.VmValue{}, err
+		}
+	}
+	return nt.VmValueFromArrayVal(arr), nil
+}
+
+const (
+	c25RouteValue = iota // EncodeValue
+	c25RouteSink         // Encode* into a sink of the caller
+	c25RouteNeo          // neovm BuildResultFromNeo into a sink of the caller
+)
+
+var c25RouteName = []string{"EncodeValue", "sink", "neo"}
+
+// c25Job is one encoder call, completely drawn beforehand so that it can run on any goroutine.
+type c25Job struct {
+	v      *c25Val
+	argM   *c25Val // private clone whose byte-array leaves back the encoder's arguments
+	route  int
+	prefix []byte      // written into the caller's sink before the value (routes sink / neo)
+	arg    interface{} // EncodeValue argument / EncodeList argument
+	int128 bool        // route sink, integer: EncodeInt128 instead of EncodeBigInt
+	neo    nt.VmValue
+	ref    []byte // prefix + reference encoding
+}
+
+type c25Held struct {
+	job   *c25Job
+	buf   []byte // exactly what the encoder side returned; never touched by the harness
+	snap  []byte // private copy taken at return time
+	err   error
+	panic string
+}
+
+func (j *c25Job) String() string {
+	return fmt.Sprintf("%s/%x:%s", c25RouteName[j.route], j.prefix, j.v)
+}
+
+func c25GenJob(t *rapid.T) *c25Job {
+	var v *c25Val
+	if c25Uniform(t, 10, "big") == 0 {
+		// a leaf above the initial capacity of a sink, alone or inside a list
+		v = &c25Val{kind: c25Bytes, b: rapid.SliceOfN(rapid.Byte(), 513, 1400).Draw(t, "bigBytes")}
+		if rapid.Bool().Draw(t, "wrap") {
+			v = &c25Val{kind: c25List, list: []*c25Val{c25GenVal(t, 1), v}}
+		}
+	} else {
+		v = c25GenVal(t, c25Uniform(t, 4, "maxDepth"))
+	}
+	j := &c25Job{v: v, argM: c25Clone(v), route: c25Uniform(t, 3, "route")}
+	if j.route == c25RouteNeo && (!c25NeoRepresentable(v) || len(c25RefEnc(nil, v)) > 900) {
+		j.route = c25RouteSink
+	}
+	switch j.route {
+	case c25RouteValue:
+		j.arg = c25ToGo(j.argM, true, c25IntRepr(t))
+	case c25RouteSink:
+		j.prefix = [][]byte{nil, {cv.VERSION}, []byte("evt\x00")}[c25Uniform(t, 3, "prefix")]
+		if v.kind == c25List {
+			j.arg = c25ToGo(j.argM, false, c25IntRepr(t))
+		}
+		j.int128 = rapid.Bool().Draw(t, "int128")
+	case c25RouteNeo:
+		if rapid.Bool().Draw(t, "ver") {
+			j.prefix = []byte{cv.VERSION}
+		}
+		neo, err := c25ToNeo(j.argM)
+		if err != nil {
+			t.Fatalf("harness: cannot build the neovm value of %s: %v", v, err)
+		}
+		j.neo = neo
+	}
+	j.ref = c25RefEnc(append([]byte{}, j.prefix...), v)
+	return j
+}
+
+// run performs the encoder call; it draws nothing and never calls into rapid.
+func (j *c25Job) run() (h *c25Held) {
+	h = &c25Held{job: j}
+	defer func() {
+		if r := recover(); r != nil {
+			h.panic = fmt.Sprintf("%v\n%s", r, c18Stack())
+		}
+	}()
+	switch j.route {
+	case c25RouteValue:
+		h.buf, h.err = cv.EncodeValue(j.arg)
+	case c25RouteSink:
+		sink := common.NewZeroCopySink(append([]byte(nil), j.prefix...)) // nil prefix: a fresh 512-byte sink
+		m := j.argM
+		switch m.kind {
+		case c25Bytes:
+			cv.EncodeBytes(sink, m.b)
+		case c25Str:
+			cv.EncodeString(sink, string(m.b))
+		case c25Addr:
+			var a common.Address
+			copy(a[:], m.b)
+			cv.EncodeAddress(sink, a)
+		case c25Bool:
+			cv.EncodeBool(sink, m.t)
+		case c25H256:
+			var x common.Uint256
+			copy(x[:], m.b)
+			cv.EncodeH256(sink, x)
+		case c25Int:
+			if j.int128 {
+				var i128 common.I128
+				i128, h.err = common.I128FromBigInt(m.i)
+				if h.err == nil {
+					cv.EncodeInt128(sink, i128)
+				}
+			} else {
+				h.err = cv.EncodeBigInt(sink, m.i)
+			}
+		case c25List:
+			h.err = cv.EncodeList(sink, j.arg.([]interface{}))
+		}
+		h.buf = sink.Bytes()
+	case c25RouteNeo:
+		sink := common.NewZeroCopySink(append([]byte(nil), j.prefix...)) // nil prefix: a fresh 512-byte sink
+		h.err = nt.BuildResultFromNeo(j.neo, sink)
+		h.buf = sink.Bytes()
+	}
+	h.snap = append([]byte{}, h.buf...)
+	return h
+}
+
+// c25CheckReturned judges a result at return time.
+func c25CheckReturned(h *c25Held) string {
+	if h.panic != "" {
+		return fmt.Sprintf("encoder %s panicked: %s", h.job, h.panic)
+	}
+	if h.err != nil {
+		return fmt.Sprintf("encoder %s failed: %v", h.job, h.err)
+	}
+	if !bytes.Equal(h.snap, h.job.ref) {
+		return fmt.Sprintf("encoder %s returned %x, reference %x", h.job, h.snap, h.job.ref)
+	}
+	return ""
+}
+
+// c25CheckHeld judges a held buffer after further encoder calls: unchanged and still decodable to its value.
+func c25CheckHeld(h *c25Held, when string) (msg string) {
+	defer func() {
+		if r := recover(); r != nil {
+			msg = fmt.Sprintf("decoding the held result of %s panicked: %v\n%s", h.job, r, c18Stack())
+		}
+	}()
+	j := h.job
+	if !bytes.Equal(h.buf, h.snap) {
+		return fmt.Sprintf("the buffer returned by %s changed %s: was %x, now %x (a result must not alias state that later calls reuse)", j, when, h.snap, h.buf)
+	}
+	switch string(j.prefix) {
+	case "":
+		src := common.NewZeroCopySource(h.buf)
+		got, err := cv.DecodeValue(src)
+		if m, typed := c25FromGo(got); err != nil || !typed || !c25Equal(m, j.v) || src.Len() != 0 {
+			return fmt.Sprintf("held result of %s decodes %s to %v (err %v, %d bytes left), want %s", j, when, got, err, src.Len(), j.v)
+		}
+	case "\x00":
+		got, err := cv.DeserializeCallParam(h.buf)
+		if m, typed := c25FromGo(got); err != nil || !typed || !c25Equal(m, j.v) {
+			return fmt.Sprintf("held call param of %s deserialises %s to %v (err %v), want %s", j, when, got, err, j.v)
+		}
+	default:
+		if got := cv.DeserializeNotify(h.buf); !c25DeepEqualIface(got, c25Stringify(j.v)) {
+			return fmt.Sprintf("held notification of %s deserialises %s to %v, want %v", j, when, got, c25Stringify(j.v))
+		}
+	}
+	return ""
+}
+
+func TestC25_HeldResults(t *testing.T) {
+	ev := harn.For("C25").Rule(c25Rule)
+	ev.Floor("held:distinct>=2", "held", 0.80)
+	ev.Floor("held:later>=3", "held", 0.30)
+	ev.Floor("held:concurrent", "held", 0.15)
+	tooBig := new(big.Int).Lsh(big.NewInt(1), 127)
+	harn.Check(t, 4000, 300000, func(t *rapid.T) {
+		n := 2 + c25Uniform(t, 6, "further") // the first result is held over 1-6 further encodes
+		var held []*c25Held
+		var desc []string
+		for i := 0; i < n; i++ {
+			j := c25GenJob(t)
+			h := j.run()
+			if msg := c25CheckReturned(h); msg != "" {
+				t.Fatalf("%s", msg)
+			}
+			held = append(held, h)
+			desc = append(desc, j.String())
+			ev.Class("held:route=" + c25RouteName[j.route])
+			if len(h.snap) > 512 {
+				ev.Class("held:buffer>512")
+			}
+			// noise between two encodes: failing encodes, decodes of an earlier result
+			switch c25Uniform(t, 8, "noise") {
+			case 0:
+				var err error
+				guard(t, "EncodeValue", func() { _, err = cv.EncodeValue([]interface{}{"x", new(big.Int).Set(tooBig)}) })
+				if err == nil {
+					t.Fatalf("EncodeValue accepted 2^127 nested in a list")
+				}
+				ev.Class("held:noise=out-of-range")
+			case 1:
+				guard(t, "EncodeValue", func() { _, _ = cv.EncodeValue([]interface{}{[]byte{1, 2, 3}, uint8(3), "y"}) })
+				ev.Class("held:noise=unsupported")
+			case 2:
+				k := held[c25Uniform(t, len(held), "which")]
+				if msg, ok := c25Judge(k.snap[len(k.job.prefix):]); msg != "" || !ok {
+					t.Fatalf("%s (accepted=%v)", msg, ok)
+				}
+				ev.Class("held:noise=decode")
+			}
+		}
+		for i, h := range held {
+			if msg := c25CheckHeld(h, fmt.Sprintf("after %d further encoder calls on the same goroutine", n-1-i)); msg != "" {
+				t.Fatalf("%s\nsequence: %s", msg, strings.Join(desc, " ; "))
+			}
+		}
+
+		// optionally: joined goroutines encoding further values while everything so far is still held
+		conc := 0
+		if c25Uniform(t, 3, "concurrent") == 0 {
+			conc = 2 + c25Uniform(t, 3, "goroutines")
+			jobs := make([][]*c25Job, conc)
+			for g := range jobs {
+				for k, m := 0, 1+c25Uniform(t, 3, "perG"); k < m; k++ {
+					jobs[g] = append(jobs[g], c25GenJob(t))
+				}
+			}
+			res := make([][]*c25Held, conc)
+			var wg sync.WaitGroup
+			for g := range jobs {
+				wg.Add(1)
+				go func(g int) {
+					defer wg.Done()
+					for _, j := range jobs[g] {
+						res[g] = append(res[g], j.run())
+					}
+				}(g)
+			}
+			wg.Wait()
+			for g := range res {
+				for _, h := range res[g] {
+					if msg := c25CheckReturned(h); msg != "" {
+						t.Fatalf("goroutine %d of %d: %s", g, conc, msg)
+					}
+					held = append(held, h)
+					desc = append(desc, fmt.Sprintf("g%d:%s", g, h.job))
+				}
+			}
+		}
+
+		// every result is still intact, independent of its arguments, and decodes to its value
+		for _, h := range held {
+			if msg := c25CheckHeld(h, "by the end of the case"); msg != "" {
+				t.Fatalf("%s\nsequence: %s", msg, strings.Join(desc, " ; "))
+			}
+		}
+		for _, h := range held {
+			c25Scribble(h.job.argM)
+		}
+		for _, h := range held {
+			if !bytes.Equal(h.buf, h.snap) {
+				t.Fatalf("the buffer returned by %s changed when the []byte arguments it was made from were overwritten: was %x, now %x", h.job, h.snap, h.buf)
+			}
+		}
+
+		// decoder side: decoded values are held while the other buffers are decoded, then the inputs are overwritten
+		type dec struct {
+			in, noteIn []byte
+			got, note  interface{}
+		}
+		decs := make([]dec, len(held))
+		guard(t, "DecodeValue/DeserializeNotify", func() {
+			for i, h := range held {
+				d := &decs[i]
+				d.in = append([]byte{}, h.job.ref[len(h.job.prefix):]...)
+				var err error
+				if d.got, err = cv.DecodeValue(common.NewZeroCopySource(d.in)); err != nil {
+					t.Fatalf("DecodeValue(%x) failed: %v", d.in, err)
+				}
+				d.noteIn = append([]byte("evt\x00"), d.in...)
+				d.note = cv.DeserializeNotify(d.noteIn)
+			}
+		})
+		for i, h := range held {
+			if m, typed := c25FromGo(decs[i].got); !typed || !c25Equal(m, h.job.v) {
+				t.Fatalf("value decoded from %x is %v after %d further decodes, want %s", decs[i].in, decs[i].got, len(held)-1-i, h.job.v)
+			}
+		}
+		for i := range decs {
+			for k := range decs[i].in {
+				decs[i].in[k] ^= 0xFF
+			}
+			for k := range decs[i].noteIn {
+				decs[i].noteIn[k] ^= 0xFF
+			}
+		}
+		for i, h := range held {
+			if m, typed := c25FromGo(decs[i].got); !typed || !c25EqualMasked(m, h.job.v) {
+				t.Fatalf("decoded value of %s changed when the decoder input was overwritten: now %v (only []byte leaves are zero-copy)", h.job.v, decs[i].got)
+			}
+			if !c25DeepEqualIface(decs[i].note, c25Stringify(h.job.v)) {
+				t.Fatalf("notification of %s changed after further calls / when the input was overwritten: now %v, want %v", h.job.v, decs[i].note, c25Stringify(h.job.v))
+			}
+		}
+
+		distinct := map[string]bool{}
+		for _, h := range held[:n] {
+			distinct[string(h.snap)] = true
+		}
+		ev.Class("held")
+		ev.ClassN("held:buffers", int64(len(held)))
+		if len(distinct) >= 2 {
+			ev.Class("held:distinct>=2")
+		}
+		if n-1 >= 3 {
+			ev.Class("held:later>=3")
+		}
+		if conc > 0 {
+			ev.Class("held:concurrent")
+		}
+		ev.Case(len(distinct) >= 2, fmt.Sprintf("held n=%d conc=%d %s", n, conc, strings.Join(desc, " ; ")))
+	})
 }
 
 func FuzzC25_Decode(f *testing.F) {
